@@ -169,6 +169,7 @@ Record result := { res_success : bool; res_avail : Z; res_needed : Z; res_unlock
 
 (* matchPrivKeys: envelope keypair index -> first offered key with that public key *)
 Definition matched (env : envelope) (privs : list sbytes) (ki : Z) : option sbytes :=
+  if Z.of_nat (length (e_keypairs env)) <=? ki then None else   (* no entry in the map *)
   match nth_error (e_keypairs env) (Z.to_nat ki) with
   | None => None
   | Some pub => find (fun sk => sbytes_eqb (edpub sk) pub) privs
